@@ -1,6 +1,6 @@
 (* wire encoding of C18 cases; exported functions are [x_*] : val -> val *)
 From Coq Require Import ZArith List Bool.
-From V Require Import Val Bytes StrGo Route C18Users C18Tables C18CrashFs.
+From V Require Import Val Bytes StrGo Route C18Users C18Tables C18CrashFs C18Conc.
 Import ListNotations.
 Open Scope Z_scope.
 
@@ -160,6 +160,37 @@ Section Wire.
   Definition recrash_okv (v : val) : val :=
     vbool (rounds_judge (rs_judge (rounds_final (nthv 0 v))) (as_list (nthv 1 v))).
 
+  (* ---- schedules with a Flush in flight (Model/C18Conc.v) ----
+     event = (0 op) | (6 ok) start a Flush that parks in the provider | (7 op) API call meanwhile |
+             (8) release; op as in the histories (0 Save 1 Del 2 Get 3 All 4 Flush 5 Restart) *)
+  Definition dec_sev (v : val) : sev (X := X) :=
+    match as_int (nthv 0 v) with
+    | 6 => SStart (as_bool (nthv 1 v))
+    | 7 => SDuring (dec_mop (nthv 1 v))
+    | 8 => SRelease
+    | _ => SOp (dec_mop v)
+    end.
+  Definition enc_sout (o : sout (E := E)) : val :=
+    match o with
+    | OOp x => enc_mout x
+    | OStart p => VL [VI 6; vbool p]
+    | ODuring b x => VL [VI 7; vbool b; vopt enc_mout x]
+    | ORelease f x => VL [VI 8; vbool f; vopt enc_mout x]
+    | OSkip => VL [VI 9]
+    end.
+  Definition dec_sout (v : val) : sout (E := E) :=
+    match as_int (nthv 0 v) with
+    | 6 => OStart (as_bool (nthv 1 v))
+    | 7 => ODuring (as_bool (nthv 1 v)) (as_opt dec_mout (nthv 2 v))
+    | 8 => ORelease (as_bool (nthv 1 v)) (as_opt dec_mout (nthv 2 v))
+    | 9 => OSkip
+    | _ => OOp (dec_mout v)
+    end.
+  Definition sched_run (c : val) : val :=
+    vlist enc_sout (snd (srun M VWhole (rstart M) (map dec_sev (as_list c)))).
+  Definition sched_ok (v : val) : val :=
+    vbool (sok M VWhole (rstart M) (map dec_sev (as_list (nthv 0 v))) (map dec_sout (as_list (nthv 1 v)))).
+
   (* ---- the JSON laws on the implementation's decoder: a torn target file ----
      case = (ops_old ops_delta ks): after the two flushes the target is overwritten with
      its own prefixes of the lengths ks (0 = empty file) and loaded by a fresh provider;
@@ -211,3 +242,7 @@ Definition x_C18_urecrash_run : val -> val := recrash_run user_ops enc_user dec_
 Definition x_C18_urecrash_ok : val -> val := recrash_okv user_ops dec_user enc_user dec_ux.
 Definition x_C18_rrecrash_run : val -> val := recrash_run (route_ops url_ok_c18) enc_route dec_route.
 Definition x_C18_rrecrash_ok : val -> val := recrash_okv (route_ops url_ok_c18) dec_route enc_route dec_route.
+Definition x_C18_usched_run : val -> val := sched_run user_ops enc_user dec_ux.
+Definition x_C18_usched_ok : val -> val := sched_ok user_ops dec_user dec_ux.
+Definition x_C18_rsched_run : val -> val := sched_run (route_ops url_ok_c18) enc_route dec_route.
+Definition x_C18_rsched_ok : val -> val := sched_ok (route_ops url_ok_c18) dec_route dec_route.
